@@ -89,7 +89,9 @@ def rx(n):
         return '%s(%s)' % (rx(inner[0]), ', '.join(rx(a) for a in inner[1:]))
     if k == 'CXXOperatorCallExpr':
         return 'op(%s)' % ', '.join(rx(a) for a in inner)
-    if k == 'CXXConstructExpr':
+    if k in ('CXXStaticCastExpr', 'CStyleCastExpr'):
+        return 'cast(%s)' % rx(inner[-1])
+    if k in ('CXXConstructExpr', 'CXXTemporaryObjectExpr'):
         return 'construct(%s)' % ', '.join(rx(a) for a in inner)
     raise Deviation('unsupported expression kind %s' % k)
 
@@ -153,7 +155,12 @@ def norm_stmt(n, out, ind):
         out.append((pad + 'return ' + e).rstrip()); return ('return', e)
     if k in ('DoStmt', 'ForStmt', 'SwitchStmt', 'CXXTryStmt', 'GotoStmt', 'ContinueStmt'):
         raise Deviation('unsupported statement kind %s' % k)
-    # expression statement
+    # expression statement (MOMO_ASSERT expands to a conditional around __assert_fail)
+    if k in ('ConditionalOperator', 'CStyleCastExpr', 'ParenExpr', 'CXXFunctionalCastExpr', 'CXXStaticCastExpr') and cxx2coq.is_assert_stmt(n):
+        c = cxx2coq.find_assert_cond(n)
+        e = 'assert ' + (rx(c) if c is not None else '?')
+        out.append(pad + e)
+        return ('expr', '')
     e = rx(n)
     out.append(pad + e)
     return ('expr', e)
@@ -298,13 +305,20 @@ def model_automaton(prog_lines, role, labels):
 
 
 # ---------------------------------------------------------------- AST access
-def find_member(objs, cls, name, kinds):
+def find_member(objs, cls, name, kinds, nested=None, nparams=None):
     found = []
     for o in objs:
         if o.get('kind') == 'ClassTemplateDecl' and o.get('name') == cls:
             for m in o.get('inner', []):
                 if m.get('kind') == 'ClassTemplateSpecializationDecl':
-                    for x in m.get('inner', []):
+                    scope = m.get('inner', [])
+                    if nested:
+                        scope = [y for x in scope if x.get('kind') == 'CXXRecordDecl' and x.get('name') == nested for y in x.get('inner', [])]
+                    for x in scope:
+                        if nparams is not None and sum(1 for y in x.get('inner', []) if y.get('kind') == 'ParmVarDecl') != nparams:
+                            continue
+                        if 'GetFreeRaws' == name and 'const' in qt(x).split(')')[-1]:
+                            continue
                         if x.get('kind') in kinds and x.get('name') == name:
                             body = [y for y in x.get('inner', []) if y.get('kind') == 'CompoundStmt']
                             if body:
@@ -335,6 +349,10 @@ while (headRaw != null) {
   this->pvDeallocateFreeRaws()
 }
 return this->mRawMemPool.Allocate()''',
+    # the owner and every detached row address the SAME atomic object
+    'Crew::GetFreeRaws': '''assert cast((!this->IsNull()))
+return this->mData->freeRaws''',
+    'pvMakeRow': '''return construct(construct((&this->GetColumnList()), raw, (&this->mCrew.GetFreeRaws())))''',
     'pvDestroyRaws': '''if this->mCrew.IsNull() {
   return
 }
@@ -382,8 +400,10 @@ def check(repo, prog_lines):
     for fn, (cls, kinds) in (('~DataRow', ('DataRow', ('CXXDestructorDecl',))),
                              ('pvDeallocateFreeRaws', ('DataTable', ('CXXMethodDecl',))),
                              ('pvAllocateRaw', ('DataTable', ('CXXMethodDecl',))),
-                             ('pvDestroyRaws', ('DataTable', ('CXXMethodDecl',)))):
-        bodies = find_member(objs_r if cls == 'DataRow' else objs_t, cls, fn, kinds)
+                             ('pvDestroyRaws', ('DataTable', ('CXXMethodDecl',))),
+                             ('Crew::GetFreeRaws', ('DataTable', ('CXXMethodDecl',))),
+                             ('pvMakeRow', ('DataTable', ('CXXMethodDecl',)))):
+        bodies = find_member(objs_r if cls == 'DataRow' else objs_t, cls, fn.split('::')[-1], kinds, nested='Crew' if '::' in fn else None)
         if len(bodies) != 1:
             obl.append({'name': 'AST: instantiated body of ' + fn, 'ok': False, 'detail': '%d instantiated bodies found' % len(bodies)})
             continue
@@ -403,6 +423,8 @@ def check(repo, prog_lines):
             det = '\n'.join(difflib.unified_diff(EXPECTED_TEXT[fn].splitlines(), text.splitlines(), 'modelled', 'source', lineterm=''))
         obl.append({'name': 'AST: %s performs exactly the modelled atomic operations (seq_cst) on the modelled operands, in order' % fn,
                     'ok': ok, 'detail': det})
+        if fn in ('Crew::GetFreeRaws', 'pvMakeRow'):
+            continue
         if fn in MODEL_LABELS:
             role, labels = MODEL_LABELS[fn]
             ma = model_automaton(prog_lines, role, labels)
